@@ -86,11 +86,26 @@ pub fn build_calc(cfg: &Cfg) -> SmartCalc {
 
 pub struct CalcCache {
     map: HashMap<Cfg, (SmartCalc, u32)>,
+    /// one long-lived calculator that is re-configured through the setters before each use
+    scratch: Option<SmartCalc>,
+}
+
+/// apply every setting of `cfg` (library defaults where it says nothing) to a live calculator
+pub fn apply_cfg(c: &mut SmartCalc, cfg: &Cfg) {
+    c.set_decimal_seperator(cfg.dec().to_string());
+    c.set_thousand_separator(cfg.thou().to_string());
+    let _ = c.set_timezone(cfg.tz.clone().unwrap_or_else(|| "UTC".to_string()));
+    let (d, r, f) = cfg.num.unwrap_or((2, true, true));
+    c.set_number_configuration(d, r, f);
+    let (d, r, f) = cfg.pct.unwrap_or((2, true, true));
+    c.set_percentage_configuration(d, r, f);
+    let (r, f) = cfg.money.unwrap_or((false, true));
+    c.set_money_configuration(r, f);
 }
 
 impl CalcCache {
     pub fn new() -> Self {
-        CalcCache { map: HashMap::new() }
+        CalcCache { map: HashMap::new(), scratch: None }
     }
     pub fn get(&mut self, cfg: &Cfg) -> &SmartCalc {
         if self.map.len() > 64 && !self.map.contains_key(cfg) {
@@ -103,6 +118,18 @@ impl CalcCache {
         let e = self.map.entry(cfg.clone()).or_insert_with(|| (build_calc(cfg), 0));
         e.1 = e.1.saturating_add(1);
         &e.0
+    }
+    /// the long-lived calculator, re-configured to `cfg` through the public setters
+    pub fn reconfigured(&mut self, cfg: &Cfg) -> &SmartCalc {
+        if self.scratch.is_none() {
+            self.scratch = Some(build_calc(&Cfg::default()));
+        }
+        let c = self.scratch.as_mut().unwrap();
+        apply_cfg(c, cfg);
+        c
+    }
+    pub fn forget_scratch(&mut self) {
+        self.scratch = None;
     }
     /// drop a cached calculator (after a panic happened inside it, to be safe)
     pub fn forget(&mut self, cfg: &Cfg) {
@@ -284,6 +311,22 @@ impl Worker {
         self.watch_end();
         if r.is_err() {
             self.calcs.forget(cfg);
+        }
+        r
+    }
+
+    /// Evaluate on the long-lived calculator after re-applying every setter (cheap when the
+    /// configuration changes with every case). Only for configurations whose zone is valid or absent.
+    pub fn eval_reconfigured(&mut self, cfg: &Cfg, lang: &str, text: &str) -> Result<EvalOut, PanicInfo> {
+        self.count_eval(1);
+        self.watch_begin(&serde_json::json!({"cfg": cfg, "lang": lang, "text": text}).to_string());
+        let r = {
+            let calc = self.calcs.reconfigured(cfg);
+            eval_on(calc, lang, text)
+        };
+        self.watch_end();
+        if r.is_err() {
+            self.calcs.forget_scratch();
         }
         r
     }
